@@ -116,6 +116,19 @@ struct GridC {
     return p;
   }
 };
+}  // namespace vc
+namespace vf {
+template <>
+struct TwinHook<vc::GridC, void> {
+  // same number of points, other values: shifted by one unit, gaps in reverse order, every other gap one unit wider
+  static void apply(vc::GridC &g) {
+    g.off += 1;
+    std::reverse(g.gaps.begin(), g.gaps.end());
+    for (size_t i = 0; i < g.gaps.size(); i += 2) g.gaps[i] += 1;
+  }
+};
+}  // namespace vf
+namespace vc {
 struct SplineC {
   i64 s = 0, e = 0;  // window [s,e) of grid point indices, (0,0) = empty
   i64 cden = 1;
